@@ -11,12 +11,15 @@ from .common import Spec, Claims
 
 PROPERTY = "C17"
 BOUNDS = ("3 seed ACLs (flat with nested/duplicate addresses, grouped by '= ' with remarks/flags/log, address groups + a multi-port eq "
-          "entry) of 4-6 lines with symbolic addresses/ports; alphabet of 16 operations (platform nxos/ios, port_nr, protocol_nr, "
+          "entry) of 4-6 lines with symbolic addresses/ports; alphabet of 17 operations (platform nxos/ios, port_nr, protocol_nr, "
           "resequence(10,10), resequence(0), group, ungroup, reverse, pop, insert, copy, export/import, re-parse, delete_shadow, "
-          "ungroup_ports); ALL sequences of length <=2 (quick) / <=3 on a seeded sample of 600 (thorough).  After every step: re-parse "
+          "ungroup_ports, sort); ALL sequences of length <=2 (quick) / <=3 on a seeded sample of 600 (thorough).  After every step: re-parse "
           "fixpoint, first-match decision vs the reference model for every packet, and the same operation applied to a freshly parsed "
           "rendering of the previous state gives the same text (history independence).")
-ASSUMPTIONS = ["histories are enumerated (structure); the solver covers addresses, ports and packets", "sort() is exercised by C15",
+ASSUMPTIONS = ["histories are enumerated (structure); the solver covers addresses, ports and packets",
+               "sort(): the model predicts the order only while the numbers given by the last resequence(10, 10) are intact (distinct, "
+               "no line added or split since); sorting an ACL without such numbers is checked for re-parse fixpoint and "
+               "history independence only - the library documents no order for unnumbered entries",
                "random longer histories are not used: sampling is not this technique's deciding step"]
 
 SEEDS = {
@@ -28,7 +31,7 @@ SEEDS = {
                AG.A("deny", src=("g", "G2"), dst=("g", "G1")), AG.A("permit", "udp", dport=("eq", ["q"]))],
 }
 OPS = ["nxos", "ios", "port_nr", "protocol_nr", "reseq", "reseq0", "group", "ungroup", "reverse", "pop", "insert", "copy", "data",
-       "reparse", "delete_shadow", "ungroup_ports"]
+       "reparse", "delete_shadow", "ungroup_ports", "sort"]
 NEW_LINE = "deny udp any any eq 53"
 
 
@@ -38,6 +41,8 @@ class State:
     def __init__(self, entries, platform, group_by):
         self.blocks = [[e] for e in entries]
         self.platform, self.group_by = platform, group_by
+        self.rank = None            # id(first entry of a block) -> position given by the last resequence(10, 10), while it is valid
+        self.order_known = True     # False once an ACL without distinct numbers was sorted (that order is not specified)
 
     def rules(self):
         return [e for b in self.blocks for e in b if type(e) is Rule]
@@ -84,6 +89,8 @@ def _apply(acl, op, w):
         acl.delete_shadow()
     elif op == "ungroup_ports":
         acl.ungroup_ports()
+    elif op == "sort":
+        acl.sort()
     return acl
 
 
@@ -116,6 +123,19 @@ def _model(state, op, new_rule):
         state.blocks.insert(0, [new_rule])
     elif op in ("nxos", "ios"):
         state.platform = op
+    # numbering: resequence(10, 10) gives every line a distinct number in the current order; sort() restores that order as
+    # long as no operation added unnumbered lines, copies sharing a number, or new blocks (blocks made by group() carry no
+    # number: KNOWN-FINDING of C15)
+    if op == "reseq":
+        state.rank = {id(b): k for k, b in enumerate(state.blocks)}
+        state.rank_blocks = list(state.blocks)
+    elif op in ("reseq0", "insert", "group", "ungroup", "ungroup_ports", "nxos", "ios"):
+        state.rank = None
+    if op == "sort":
+        if state.rank is not None and all(id(b) in state.rank for b in state.blocks):
+            state.blocks.sort(key=lambda b: state.rank[id(b)])
+        else:
+            state.order_known = False
 
 
 def _entries(w, specs):
@@ -168,7 +188,9 @@ def h_history(ctx):
         try:
             parsed = rd.read_acl(acl.line, acl.platform, AG.reader_groups(w))
             got_rules = [it[2]["rule"] for it in parsed["items"] if it[0] == "ace"]
-            cl(f"s{k}:{op}:decision-as-model", V(decision(got_rules, pkt)) != V(decision(state.rules(), pkt)))
+            if state.order_known:
+                cl(f"s{k}:{op}:decision-as-model", V(decision(got_rules, pkt)) != V(decision(state.rules(), pkt)))
+
             cl(f"s{k}:{op}:platform", acl.platform != state.platform)
         except rd.Reject as e:
             ctx.observe("reject", str(e))
